@@ -236,4 +236,57 @@ theorem parseFile_renderSimple (look : Template.Env) (ls : List (Str × Str)) (h
   rw [stripBOM_renderSimple ls h, renderSimple, Dotenv.parse_render_lemma _ _ (simple_wf ls h)]
   cases Dotenv.evalLines look (ls.map simpleLine) <;> rfl
 
+def SameLayers : Except Err Env → Except Unit (List Env) → Prop
+  | .ok m, .ok ls => ∀ k, m.get k = Env.get ls.flatten k
+  | .error _, .error _ => True
+  | _, _ => False
+
+theorem envOf_congr (cur a b : Env) (h : ∀ k, a.get k = b.get k) :
+    Dotenv.envOf cur.get a = Dotenv.envOf cur.get b := by
+  funext n
+  simp only [Dotenv.envOf, dget_eq, h n]
+
+theorem fileLayer_congr (above a b : Env) (h : ∀ k, a.get k = b.get k) (ls : List (Str × Str)) (out : Env) :
+    fileLayer above a ls out = fileLayer above b ls out := by
+  have hf : ∀ out, lookupLayers [above, a, out] = lookupLayers [above, b, out] := by
+    intro out; funext n; simp only [lookupLayers, h n]
+  induction ls generalizing out with
+  | nil => rfl
+  | cons p ls ih =>
+    obtain ⟨k, t⟩ := p
+    simp only [fileLayer, hf]
+    cases Template.subst (lookupLayers [above, b, out]) t with
+    | ok v => exact ih _
+    | err e => rfl
+    | panic s => rfl
+
+theorem getEnvFromFile_append (w : World) (cur : Env) (a b : List FileRef) (acc : Env) :
+    getEnvFromFile w cur (a ++ b) acc =
+      match getEnvFromFile w cur a acc with
+      | .ok m => getEnvFromFile w cur b m
+      | .error e => .error e := by
+  induction a generalizing acc with
+  | nil => rfl
+  | cons f fs ih =>
+    simp only [List.cons_append, getEnvFromFile]
+    cases lookupFile w f with
+    | none => rfl
+    | some ef =>
+      cases ef with
+      | dir => rfl
+      | file c =>
+        simp only
+        cases parseFile (Dotenv.envOf cur.get acc) c with
+        | ok out => exact ih _
+        | error e => rfl
+
+/-- the separator `WithConfigFileEnv` uses: `COMPOSE_PATH_SEPARATOR` of the project environment when non-empty, else `:` -/
+def pathSep (o : PO) : Str :=
+  match o.env.get pathSepKey with
+  | some s => if s = [] then [':'] else s
+  | none => [':']
+
+/-- the value of `COMPOSE_DISABLE_ENV_FILE` in the OS environment, as `WithEnvFiles()` reads it -/
+def disableVar (w : World) : Option Str := (asEqualsMap w.os).get disableKey
+
 end CV.Name
